@@ -57,8 +57,11 @@ static int64_t nv_t1d_size(const struct nv_t1d* t) { return t->n; }
 
 /* update_bin(begin, end, bin): count = end - begin written to slot bin; mean and median computed over exactly [begin, end);
  * NaN for an empty range; consecutive calls tile the values (coverage ghost) */
-double __CPROVER_uninterpreted_range_mean(int64_t, int64_t), __CPROVER_uninterpreted_range_median(int64_t, int64_t);
-static double nv_mean_range(NV_ELEM* b, NV_ELEM* e, int64_t count) { __CPROVER_assert(count == e - b && count > 0, "mean over a non-empty range with its own length"); return __CPROVER_uninterpreted_range_mean(b - nv_base, e - nv_base); }
+double __CPROVER_uninterpreted_scalar_sum(int64_t, int64_t), __CPROVER_uninterpreted_range_median(int64_t, int64_t);
+/* histogram_t::mean by the contract proved for it per sample type (specs/C20/mean.h, targets mean_<type>): its precondition is
+ * an obligation here, its result is the scalar_t sum of the range divided by the length of the range */
+#define NV_RANGE_MEAN(bo, eo) NV_FDIV(__CPROVER_uninterpreted_scalar_sum(bo, eo), (double)((eo) - (bo)))
+static double nv_mean_range(NV_ELEM* b, NV_ELEM* e, int64_t count) { __CPROVER_assert(count == e - b && count > 0, "mean over a non-empty range with its own length"); return NV_RANGE_MEAN(b - nv_base, e - nv_base); }
 static double nv_median_sorted_range(NV_ELEM* b, NV_ELEM* e) { __CPROVER_assert(b < e, "median of a non-empty range"); return __CPROVER_uninterpreted_range_median(b - nv_base, e - nv_base); }
 static double nv_quiet_nan(void) { double x = nv_nondet_double(); __CPROVER_assume(x != x); return x; }
 #define NV_CONTRACT_update_bin \
@@ -68,7 +71,7 @@ __CPROVER_requires(self->m_bin_means.n == self->m_bin_counts.n && self->m_bin_me
 __CPROVER_requires(0 <= nv_bo && nv_bo <= nv_eo && nv_eo <= nv_n && begin == nv_base + nv_bo && end == nv_base + nv_eo) \
 __CPROVER_assigns(self->m_bin_counts.p[bin], self->m_bin_means.p[bin], self->m_bin_medians.p[bin]) \
 __CPROVER_ensures(self->m_bin_counts.p[bin] == end - begin) \
-__CPROVER_ensures((end - begin > 0) ==> (NV_SAME(self->m_bin_means.p[bin], __CPROVER_uninterpreted_range_mean(begin - nv_base, end - nv_base)) && NV_SAME(self->m_bin_medians.p[bin], __CPROVER_uninterpreted_range_median(begin - nv_base, end - nv_base)))) \
+__CPROVER_ensures((end - begin > 0) ==> (NV_SAME(self->m_bin_means.p[bin], NV_RANGE_MEAN(begin - nv_base, end - nv_base)) && NV_SAME(self->m_bin_medians.p[bin], __CPROVER_uninterpreted_range_median(begin - nv_base, end - nv_base)))) \
 __CPROVER_ensures((end - begin == 0) ==> (self->m_bin_means.p[bin] != self->m_bin_means.p[bin] && self->m_bin_medians.p[bin] != self->m_bin_medians.p[bin]))
 
 /* the same function as seen from update(): additionally maintains the coverage ghosts */
